@@ -135,16 +135,16 @@ lemma gridInit_shape (a b : Rat × Rat) (gpts sampling : Val) (ep : List Bool) (
   have hrp : PosL [b.1 - a.1, b.2 - a.2] := by
     intro z hz; simp only [List.mem_cons, List.mem_nil_iff, or_false] at hz; rcases hz with rfl | rfl <;> assumption
   have hne : Val.seq [b.1 - a.1, b.2 - a.2] ≠ Val.none := by intro h; cases h
-  rcases hvg : validate 2 gpts with e1' | go
+  rcases hvg : validateGpts 2 gpts with e1' | go
   · simp [Grid.init, hve, hvg] at hg
   rcases hvs : validate 2 sampling with e1' | so
   · simp [Grid.init, hve, hvg, hvs] at hg
   rcases go with _ | nl <;> rcases so with _ | ds
   · -- neither gpts nor sampling: excluded
-    have h1 := validate_none hvg; have h2 := validate_none hvs
+    have h1 := validateGpts_none hvg; have h2 := validate_none hvs
     rcases hdef with h | h <;> contradiction
   · -- sampling only
-    have h2 := validate_none hvg
+    have h2 := validateGpts_none hvg
     subst h2
     obtain ⟨hdl, hdp⟩ := validate_pos hvs hS
     obtain ⟨d0, d1, rfl⟩ := list_len2 ds hdl
@@ -159,21 +159,21 @@ lemma gridInit_shape (a b : Rat × Rat) (gpts sampling : Val) (ep : List Bool) (
   · -- gpts only
     have h3 := validate_none hvs
     subst h3
-    obtain ⟨hnl0, hg'⟩ := validate_good hvg hG
+    obtain ⟨hnl0, hg'⟩ := validateGpts_good hvg hG
     obtain ⟨m0, m1, rfl⟩ := list_len2 nl hnl0
     simp only [Grid.init, hve, hvg, hvs] at hg
     simp [adjustSampling, zipWith3, Res.bind] at hg
     subst hg
-    refine ⟨AbtemVerif.Py.pyInt m0, AbtemVerif.Py.pyInt m1, e0, e1, rfl, ?_, ?_, rfl, rfl, rfl, rfl, rfl, rfl⟩
+    refine ⟨m0, m1, e0, e1, rfl, ?_, ?_, rfl, rfl, rfl, rfl, rfl, rfl⟩
     · exact hg' 0 _ e0 (by simp) (by simp)
     · exact hg' 1 _ e1 (by simp) (by simp)
   · -- both: the given sampling is overwritten
-    obtain ⟨hnl0, hg'⟩ := validate_good hvg hG
+    obtain ⟨hnl0, hg'⟩ := validateGpts_good hvg hG
     obtain ⟨m0, m1, rfl⟩ := list_len2 nl hnl0
     simp only [Grid.init, hve, hvg, hvs] at hg
     simp [hne, adjustSampling, zipWith3, Res.bind] at hg
     subst hg
-    refine ⟨AbtemVerif.Py.pyInt m0, AbtemVerif.Py.pyInt m1, e0, e1, rfl, ?_, ?_, rfl, rfl, rfl, rfl, rfl, rfl⟩
+    refine ⟨m0, m1, e0, e1, rfl, ?_, ?_, rfl, rfl, rfl, rfl, rfl, rfl⟩
     · exact hg' 0 _ e0 (by simp) (by simp)
     · exact hg' 1 _ e1 (by simp) (by simp)
 
